@@ -7,7 +7,20 @@
 From Coq Require Import NArith ZArith List Bool.
 From Coq.Strings Require Import Byte.
 From V Require Import Base.Bytes Base.CaseLib Sig.SigModel.
+From Coq Require Uint63.
 Import ListNotations.
+
+(* compact byte-string literals for the (long, repetitive) history cases: seven octets per
+   primitive 63-bit integer, big-endian, then a tail of fewer than seven octets.  A primitive
+   integer literal is one node for Coq's front end, a string literal ten per character. *)
+Fixpoint octets_le (w : nat) (x : N) : bytes :=
+  match w with O => [] | S w' => n2b (N.land x 255) :: octets_le w' (N.shiftr x 8) end.
+Definition w7 (x : Uint63.int) : bytes := rev (octets_le 7 (Z.to_N (Uint63.to_Z x)))   (* = be_enc 7 *).
+Fixpoint wbytes (ws : list Uint63.int) : bytes :=
+  match ws with [] => [] | w :: r => w7 w ++ wbytes r end.
+Definition wb (ws : list Uint63.int) (tail : bytes) : bytes := wbytes ws ++ tail.
+(* a non-negative integer from its big-endian octets *)
+Definition zb (b : bytes) : Z := Z.of_N (be_dec b).
 
 Inductive outcome := OOk | OErr | OPanic.
 Definition outcome_of {A} (r : res A) : outcome :=
@@ -54,6 +67,56 @@ Definition m_verify_sth o sig0 := verify_sth (digest_of o []) (rsa_of o sig0) (r
 Definition m_util o sig0 := util_verify_sct (digest_of o []) (rsa_of o sig0) (rs_of o) (rs_of o).
 Definition m_json o msg0 sig0 := new_from_signed_json (digest_of o msg0) (rsa_of o sig0) (rs_of o) (rs_of o) (json_of o msg0).
 
+(* ---- histories on one verifier object.  [calls]: the distinct calls of the history, each with what
+   the harness measured with the standard library for THAT call's (message, signature) under the
+   object's key - present only where a primitive accepted; a (digest, signature) pair no table
+   lists is one the primitive refused, as everywhere in this file.  [steps]: the history itself,
+   each step the index of its call and the observed outcome (None: the call verifies no
+   signature, nothing to compare).  The primitives of the model are instantiated ONCE for the
+   whole history from the union of the tables - a primitive is a function of (key, digest,
+   signature), not of the position in the history. *)
+Record hcall := { h_op : vop; h_oracle : oracle }.
+Definition hcall_none : hcall := {| h_op := OpTouch None; h_oracle := no_oracle |}.
+
+Definition op_sig (op : vop) : bytes :=
+  match op with
+  | OpVerify _ sg => ds_sig sg
+  | OpSct s _ | OpUtil s _ => ds_sig (sct_sig s)
+  | OpSth s => ds_sig (sth_sig s)
+  | OpJson _ raw => raw
+  | OpTouch _ => []
+  end.
+Definition o_message (o : oracle) : bytes := match o_msg o with Some x => x | None => [] end.
+Definition has_digest (o : oracle) (ht : Z) : bool :=
+  match lookup_digest o ht with Some _ => true | None => false end.
+Definition digest_many (hs : list hcall) (ht : Z) (m : bytes) : bytes :=
+  match find (fun h => has_digest (h_oracle h) ht && bytes_eqb m (o_message (h_oracle h))) hs with
+  | Some h => match lookup_digest (h_oracle h) ht with Some d => d | None => [] end
+  | None => []
+  end.
+Definition rsa_many (hs : list hcall) (k : key) (ht : Z) (dg sig : bytes) : bool :=
+  existsb (fun h => match o_rsa (h_oracle h) with
+                    | [] => false                          (* nothing measured: skip the comparison of the signatures *)
+                    | _ => rsa_of (h_oracle h) (op_sig (h_op h)) k ht dg sig
+                    end) hs.
+Definition rs_many (hs : list hcall) (k : key) (dg : bytes) (r s : Z) : bool :=
+  existsb (fun h => rs_of (h_oracle h) k dg r s) hs.
+Definition json_many (hs : list hcall) (m : bytes) : bool :=
+  existsb (fun h => json_of (h_oracle h) (o_message (h_oracle h)) m) hs.
+Definition hist_ops (calls : list hcall) (steps : list (N * option outcome)) : list vop :=
+  map (fun s => h_op (nth (N.to_nat (fst s)) calls hcall_none)) steps.
+Definition m_hist (k : key) (calls : list hcall) (steps : list (N * option outcome)) : list (option outcome) :=
+  map (option_map outcome_of)
+      (run_history (digest_many calls) (rsa_many calls) (rs_many calls) (rs_many calls) (json_many calls)
+                   {| vs_key := k; vs_last := None |} (hist_ops calls steps)).
+(* positions (from 0) at which the model and the observation differ *)
+Fixpoint hist_diffs (i : N) (ms os : list (option outcome)) : list N :=
+  match ms, os with
+  | m :: ms', o :: os' => (if opt_eqb outcome_eqb m o then [] else [i]) ++ hist_diffs (i + 1) ms' os'
+  | [], [] => []
+  | _, _ => [i]
+  end.
+
 Inductive code_sweep := HashCodes (a : N) | SigCodes (h : N).
 Definition codes256 : list N := map N.of_nat (seq 0 256).
 Definition sweep_pairs (w : code_sweep) : list (N * N) :=
@@ -82,7 +145,10 @@ Inductive case :=
 (* tls.CreateSignature: dynamic type of the private key, hash code asked for, whether the
    standard library's signing primitive succeeds for that key and hash (measured directly),
    observed result: the (hash, signature) codes the returned DigitallySigned declares *)
-| CCreate (pk : privkind) (h : N) (sign_ok : bool) (obs : res (N * N)).
+| CCreate (pk : privkind) (h : N) (sign_ok : bool) (obs : res (N * N))
+(* a history of calls on ONE verifier object built with key k (ct.SignatureVerifier, ctutil.LogInfo,
+   or the package's functions called with k) *)
+| CHist (k : key) (calls : list hcall) (steps : list (N * option outcome)).
 
 Definition der_view (sig : bytes) : option (Z * Z * N) :=
   match der_rs sig with Some (r, s, rest) => Some (r, s, N.of_nat (length rest)) | None => None end.
@@ -145,22 +211,26 @@ Definition check (c : case) : bool :=
   | CSctCodes k s e o w oks panics => sweep_agrees (mo_sct k s e o) w oks panics
   | CSthCodes k s o w oks panics => sweep_agrees (mo_sth k s o) w oks panics
   | CCreate pk h sign_ok obs => res_codes_eqb (create_signature sign_ok pk h) obs
+  | CHist k cs ss => match hist_diffs 0 (m_hist k cs ss) (map snd ss) with [] => true | _ => false end
   end.
 
-(* what the model computes: (outcome, DER view, signature input, JSON trace) *)
-Definition explain (c : case) : option outcome * option (option (Z * Z * N)) * option (res bytes) * option (list jstep) :=
+(* what the model computes: (outcome, DER view, signature input, JSON trace, history) *)
+(* ...; for a history: the steps at which model and observation differ, and the model's answers *)
+Definition explain (c : case) : option outcome * option (option (Z * Z * N)) * option (res bytes) * option (list jstep)
+                              * option (list N * list (option outcome)) :=
   match c with
-  | CVerify k data sg o _ => (Some (outcome_of (m_verify o data (ds_sig sg) k data sg)), Some (der_view (ds_sig sg)), None, None)
-  | CDer sig _ => (None, Some (der_view sig), None, None)
-  | CNewVerifier allow k _ => (Some (outcome_of (new_verifier allow k)), None, None, None)
-  | CSctInput s e _ => (None, None, Some (sct_siginput s e), None)
-  | CSthInput s _ => (None, None, Some (sth_siginput s), None)
-  | CSct k s e o _ => (Some (outcome_of (m_verify_sct o (ds_sig (sct_sig s)) k s e)), Some (der_view (ds_sig (sct_sig s))), Some (sct_siginput s e), None)
-  | CSth k s o _ => (Some (outcome_of (m_verify_sth o (ds_sig (sth_sig s)) k s)), Some (der_view (ds_sig (sth_sig s))), Some (sth_siginput s), None)
-  | CUtil allow k s e o _ => (Some (outcome_of (m_util o (ds_sig (sct_sig s)) allow k s e)), None, Some (sct_siginput s e), None)
-  | CJson k data raw o _ => (Some (outcome_of (fst (m_json o data raw k data raw))), Some (der_view raw), None, Some (snd (m_json o data raw k data raw)))
-  | CVerifyCodes k data sig o w oks panics => (first_disagreement (mo_verify k data sig o) w oks panics, Some (der_view sig), None, None)
-  | CSctCodes k s e o w oks panics => (first_disagreement (mo_sct k s e o) w oks panics, Some (der_view (ds_sig (sct_sig s))), Some (sct_siginput s e), None)
-  | CSthCodes k s o w oks panics => (first_disagreement (mo_sth k s o) w oks panics, Some (der_view (ds_sig (sth_sig s))), Some (sth_siginput s), None)
-  | CCreate pk h sign_ok _ => (Some (outcome_of (create_signature sign_ok pk h)), None, None, None)
+  | CVerify k data sg o _ => (Some (outcome_of (m_verify o data (ds_sig sg) k data sg)), Some (der_view (ds_sig sg)), None, None, None)
+  | CDer sig _ => (None, Some (der_view sig), None, None, None)
+  | CNewVerifier allow k _ => (Some (outcome_of (new_verifier allow k)), None, None, None, None)
+  | CSctInput s e _ => (None, None, Some (sct_siginput s e), None, None)
+  | CSthInput s _ => (None, None, Some (sth_siginput s), None, None)
+  | CSct k s e o _ => (Some (outcome_of (m_verify_sct o (ds_sig (sct_sig s)) k s e)), Some (der_view (ds_sig (sct_sig s))), Some (sct_siginput s e), None, None)
+  | CSth k s o _ => (Some (outcome_of (m_verify_sth o (ds_sig (sth_sig s)) k s)), Some (der_view (ds_sig (sth_sig s))), Some (sth_siginput s), None, None)
+  | CUtil allow k s e o _ => (Some (outcome_of (m_util o (ds_sig (sct_sig s)) allow k s e)), None, Some (sct_siginput s e), None, None)
+  | CJson k data raw o _ => (Some (outcome_of (fst (m_json o data raw k data raw))), Some (der_view raw), None, Some (snd (m_json o data raw k data raw)), None)
+  | CVerifyCodes k data sig o w oks panics => (first_disagreement (mo_verify k data sig o) w oks panics, Some (der_view sig), None, None, None)
+  | CSctCodes k s e o w oks panics => (first_disagreement (mo_sct k s e o) w oks panics, Some (der_view (ds_sig (sct_sig s))), Some (sct_siginput s e), None, None)
+  | CSthCodes k s o w oks panics => (first_disagreement (mo_sth k s o) w oks panics, Some (der_view (ds_sig (sth_sig s))), Some (sth_siginput s), None, None)
+  | CCreate pk h sign_ok _ => (Some (outcome_of (create_signature sign_ok pk h)), None, None, None, None)
+  | CHist k cs ss => (None, None, None, None, Some (hist_diffs 0 (m_hist k cs ss) (map snd ss), m_hist k cs ss))
   end.
